@@ -307,6 +307,7 @@ def _eval_new_ctx(
             f"_eval_new_ctx: introspect_indirect: {len(all_loads)} loads detected"
         )
         all_stores = FunctionIndirectInteractionUtils.all_stores(inters_indirect)
+        FunctionIndirectInteractionUtils.check_load_order(inters_indirect)
         _logger.debug(
             f"_eval_new_ctx: introspect_indirect: {len(all_loads)} loads and {len(all_stores)} detected"
         )
